@@ -14,6 +14,7 @@ import (
 	"os"
 	"path/filepath"
 	"sort"
+	"strconv"
 	"strings"
 	"sync"
 )
@@ -317,6 +318,11 @@ func main() {
 	if len(os.Args) < 5 {
 		fmt.Fprintln(os.Stderr, "usage: harness <prop> <tier> <seed> <outdir> | harness replay <caseline>")
 		os.Exit(2)
+	}
+	if os.Args[1] == "busylink" {
+		// harness busylink x x <n>
+		n, _ := strconv.Atoi(os.Args[4])
+		os.Exit(runBusyLink(n))
 	}
 	if os.Args[1] == "probe" {
 		// harness probe x x <outfile>
